@@ -331,8 +331,22 @@ def cast_elem(p, e, sdt, ddt, what):
         if ddt.itemsize < sdt.itemsize:
             event(p, f"{what}: {sdt} -> {ddt} loses precision", z3.BoolVal(False))
         return e
-    if sdt.kind in "iu" and ddt.kind == "f":
+    if sdt.kind in "iub" and ddt.kind == "f":
+        # exact below the mantissa; above it the nearest float is taken silently: flagged (conservatively: some larger integers are
+        # representable - a native replay on 2**mant + 1 decides)
+        mant = {2: 11, 4: 24, 8: 53}[ddt.itemsize]
+        if max(abs(x) for x in rng_of(sdt)) > 2 ** mant:
+            event(p, f"{what}: {sdt} -> {ddt} rounds integers beyond 2**{mant}", z3.And(e >= -2 ** mant, e <= 2 ** mant), e)
         return z3.ToReal(e)
+    if sdt.kind == "f" and ddt.kind in "iu":
+        # numpy: truncation toward zero, undefined for NaN / out of range: exact only for an integral value inside the target range
+        lo, hi = rng_of(ddt)
+        r = z3.Int(f"f2i!{next(_cnt)}")
+        p.pc += [r >= lo, r <= hi]
+        exact = z3.And(z3.IsInt(e), e >= lo, e <= hi)
+        p.pc.append(z3.Implies(exact, z3.ToReal(r) == e))
+        event(p, f"{what}: {sdt} -> {ddt} truncates / overflows", exact, e)
+        return r
     raise Unsupported(f"{what}: cast {sdt} -> {ddt}")
 
 
@@ -2113,6 +2127,10 @@ def check(ctx, timeout=10000, side="both", rows_filter=None):
         n_anchor, n_bad = 0, 1
     M.pyx_stale = n_bad > 0 or n_anchor == 0
     # cut: the kernel contract the TIME_MILLIS rows rely on, posed as its own obligations first
+    if side == "cast":
+        # C07 / C09: writer.convert against an arbitrary numeric schema element of the dataset (append / overwrite / write_row_groups)
+        check_cast_target(ctx, M, res, timeout, all_values=(ctx is not None and getattr(ctx, "prop", "") == "C09") or ctx is None)
+        return res
     if side == "text":
         # C11: only the text / bytes rows of the writer table (encoder output == spec bytes, and decodes back to its input)
         # and converts_inplace on the un-annotated physical types (+ its symbolic / call-site obligations)
@@ -2127,6 +2145,8 @@ def check(ctx, timeout=10000, side="both", rows_filter=None):
     if ctx is not None:
         ctx.tv["functions"] += 2
     ws = rs = (0, 0)
+    if side in ("writer", "both") and rows_filter is None:
+        check_cast_target(ctx, M, res, timeout)
     if side in ("writer", "both"):
         ws = check_writer(ctx, M, res, timeout, rows_filter, roundtrip=(side == "both"))
     if side in ("reader", "both"):
@@ -2164,6 +2184,9 @@ KNOWN = {
         ("C02-P-int96-split-assumes-nanoseconds", _re.compile(r"^find_type\.annotation_matches_written_unit\[datetime64\[(s|ms|us)(, UTC)?\],times=int96\]$")),
         ("C02-P-datetime-s-times-1000-wraps", _re.compile(r"^units\.no_silent_wrap\[(categorical\[)?datetime64\[s(, [A-Za-z/]+)?\]\]?\]$")),
     ],
+    "C09": [
+        ("C09-P-frame-dtype-wider-than-dataset-column-narrowed-silently", _re.compile(r"^convert\.cast_to_schema_type_raises_or_keeps_value\[")),
+    ],
     "C03": [
         ("C03-P-date-outside-ns-range-wraps", _re.compile(r"^convert\.no_silent_wrap\[INT32,DATE,-\]$")),
         ("C03-P-int96-outside-ns-range-wraps", _re.compile(r"^convert\.no_silent_wrap\[INT96,-,-\]$")),
@@ -2185,6 +2208,10 @@ def props_of(name):
     the byte-level obligations of the text / bytes rows also C11 (encoder output is the spec's bytes and decodes back to its input)"""
     key = name[name.index("[") + 1:-1] if "[" in name else ""
     c11 = ("C11",) if key in TEXT_ROWS and name.startswith(("text.", "units.roundtrip[", "find_type.annotation_matches_written_unit[")) else ()
+    if name.startswith("convert.cast_to_schema_type_raises_or_keeps_value"):
+        return ("C09",)
+    if name.startswith(("convert.cast_target_is", "convert.cast_to_schema_type_preserves_value", "units.model_agrees_with_native[writer.convert,")) and " -> " in name:
+        return ("C01", "C02", "C07", "C09")
     if name.startswith(("converts_inplace.", "read_data_page_v2.")):
         return ("C03", "C01", "C11")          # which rows are posed is decided by check(side): C11 un-annotated, C01 what the writer produces
     if name.startswith("units.roundtrip") or name.startswith("converted_types.convert["):
@@ -2293,6 +2320,10 @@ def _native_reader_case(M, row, val, scale=2):
 def replay(name, model, M=None):
     """run the real functions on the counter-model (and on the boundary values of the row) -> (confirmed, text)"""
     try:
+        if name.startswith("convert.cast_t"):
+            M = M or Mods(None)
+            t = _native_cast_case(M, name)
+            return t is not None, t or "no failing input among the boundary values of the dtype"
         if name.startswith("converts_inplace.true_only"):
             M = M or Mods(None)
             r2 = UResults()
@@ -2626,3 +2657,204 @@ def check_converts_inplace(ctx, M, res, timeout, rows_sel=None):
                     time.time() - t0, "enumeration", det)
         else:
             res.add(name, PROVED, None, time.time() - t0, "enumeration", det)
+
+
+# ==== writer.convert against an ARBITRARY numeric schema element of the dataset (append / overwrite / write_row_groups) ======================
+# append, append='overwrite' and ParquetFile.write_row_groups check column NAMES only and hand the frame to the schema of the existing
+# dataset: the (dtype, schema element) pair is NOT the one make_metadata would produce together.  For every dtype D of writer.typemap and
+# every numeric schema element find_type can produce (physical type T in writer.revmap, with its converted type):
+#   convert.cast_target_is_the_schema_elements_physical_type[D -> T]   the array handed to the encoder has the item dtype of T (LogicalTypes /
+#        PLAIN: INT32 <i4, INT64 <i8, FLOAT <f4, DOUBLE <f8), so encode_plain's bytes are T's PLAIN bytes - or convert raises      (symbolic run)
+#   convert.cast_to_schema_type_preserves_value[D -> T]                 every value the column's annotated type can hold is written as itself
+#   convert.cast_to_schema_type_raises_or_keeps_value[D -> T]  (C09)    ALL values: raises, or nothing narrowed / rounded / truncated
+FID_NARROW = "C09-P-frame-dtype-wider-than-dataset-column-narrowed-silently"
+
+
+def numeric_schema_elements(M):
+    """the numeric schema elements the real find_type produces (type in revmap), by (type, converted type)"""
+    out = {}
+    for row in writer_rows(M.pd):
+        if row["kind"] not in ("int", "uint", "float") or row.get("categories") or "vals" in row:
+            continue
+        try:
+            ser = row["make"](boundary_values(row)[:2])
+            se, _ = M.writer.find_type(ser)
+        except Exception:
+            continue
+        if se.type in getattr(M.writer, "revmap", {}):
+            out.setdefault((se.type, se.converted_type), se)
+    return out
+
+
+def _cast_rows(M):
+    pd = M.pd
+    rows = []
+    for name in getattr(M.writer, "typemap", {}):
+        for mk in ((lambda vals, d=name: pd.Series(np.array(vals, dtype=d), name="x")), (lambda vals, d=name: pd.Series(pd.array(list(vals), dtype=d), name="x"))):
+            try:
+                s0 = mk([0, 1])
+                if s0.dtype.name != name:
+                    continue
+            except Exception:
+                continue
+            vals = s0.values
+            vdt = vals.dtype if isinstance(vals, np.ndarray) else np.dtype(s0.dtype.numpy_dtype)
+            rows.append({"name": name, "make": mk, "vdt": vdt})
+            break
+    return rows
+
+
+def _cast_boundary(vdt):
+    if vdt.kind == "b":
+        return [False, True]
+    if vdt.kind == "f":
+        fi = np.finfo(vdt)
+        return [0.0, 1.0, -2.0, 1.5, 7.0, 2.0 ** 24 + 1, 2.0 ** 31, -2.0 ** 31 - 1, 2.0 ** 53 + 2, 3.0e9, float(fi.max), 0.1]
+    lo, hi = rng_of(vdt)
+    return sorted({x for x in (lo, hi, 0, 1, 7, -1, 127, 128, 255, 256, 32767, 32768, 65535, 65536, 2 ** 24 + 1, 2 ** 31 - 1, 2 ** 31, 2 ** 32 - 1, 2 ** 32,
+                               2 ** 53 + 1, 2 ** 63 - 1, 2 ** 63) if lo <= x <= hi})
+
+
+def _as_real(t):
+    return z3.ToReal(t) if z3.is_expr(t) and t.sort() == z3.IntSort() else t
+
+
+def check_cast_target(ctx, M, res, timeout, all_values=False):
+    ses = numeric_schema_elements(M)
+    rows = _cast_rows(M)
+    n_pairs = 0
+    silent = []
+    for (T, cv), se in sorted(ses.items(), key=lambda kv: (kv[0][0], kv[0][1] if kv[0][1] is not None else -1)):
+        f = se_facts(M.pt, se)
+        tname = f["type"] + ("/" + f["converted"] if f["converted"] else "")
+        pdt = np.dtype(PHYS_DT[f["type"]])
+        for row in rows:
+            D, vdt = row["name"], row["vdt"]
+            key = f"{D} -> {tname}"
+            n1, n2, n3 = (f"convert.cast_target_is_the_schema_elements_physical_type[{key}]", f"convert.cast_to_schema_type_preserves_value[{key}]",
+                          f"convert.cast_to_schema_type_raises_or_keeps_value[{key}]")
+            n_pairs += 1
+            try:
+                v, vdt, outs, eng = run_writer_convert(M, row, se, row["make"]([0, 1]))
+            except Unsupported as ex:
+                res.add(n1, UNKNOWN, None, 0.0, "engine", f"out of reach: {ex}")
+                continue
+            rets = [q for q in outs if q.ctl[0] == "ret"]
+            if not rets:
+                res.add(n1, PROVED, None, 0.0, "engine", f"convert raises for every value ({'; '.join(sorted({str(q.ctl[1]) for q in outs}))}): nothing is written")
+                continue
+            paths = []
+            for q in rets:
+                r = q.ctl[1]
+                rdt = r.h.dt if is_narr(r) else None
+                ok = rdt is not None and rdt == pdt
+                res.add(n1, PROVED if ok else REFUTED, None if ok else {"frame_dtype": D, "schema_element": annotation_name(f), "array_handed_to_the_encoder": str(rdt),
+                                                                        "PLAIN_item_dtype_of_the_schema_type": str(pdt)}, 0.0, "engine (symbolic run)",
+                        f"frame column {D}, dataset column {annotation_name(f)}: the array writer.convert returns has item dtype {pdt} "
+                        f"(the PLAIN layout of {f['type']}), so encode_plain writes {f['type']} values - on every returning path")
+                if not ok:
+                    continue
+                e = r.h.load(q)
+                try:
+                    cls_s, val_s, valid_s = spec_meaning(f, e)
+                    cls_p, val_p = pandas_meaning(vdt, v)
+                except Unsupported as ex:
+                    res.add(n2, UNKNOWN, None, 0.0, "engine", str(ex))
+                    continue
+                goal = z3.And(valid_s, _as_real(val_s) == _as_real(val_p))
+                hyp = list(q.pc) + [events_ok(q)]
+                st0, _, _ = solve(hyp, timeout)
+                if st0 == REFUTED:
+                    res.vac["requires_sat"] += 1
+                    # "values the dataset column can hold": the annotated range too (an INT_8 column holds -128..127)
+                    st, m, secs = solve(hyp + [valid_s, z3.Not(goal)], timeout)
+                    res.add(n2, st, _model(m, v=v, written=e, written_means=val_s, cell=val_p), secs, "z3",
+                            f"every {D} value that {annotation_name(f)} can hold (no narrowing / rounding / truncation needed) is written as itself")
+                else:
+                    res.add(n2, PROVED, None, 0.0, "z3", f"no {D} value is guaranteed to survive the cast to {pdt} (always flagged as lossy): nothing claimed")
+                stw, mw, secsw = solve(list(q.pc) + [z3.Not(z3.And(events_ok(q), valid_s))], timeout)
+                if stw == REFUTED:
+                    silent.append(key)
+                if all_values:
+                    mod = _model(mw, v=v, written=e)
+                    if mw is not None:
+                        mod["lossy"] = _why_events(mw, q) or ["the value written is outside the range of the column's annotated type"]
+                    res.add(n3, stw, mod, secsw, "z3", f"ALL {D} values: convert raises, or the value fits {annotation_name(f)} and nothing was narrowed, "
+                            "rounded or truncated (C18: 'values that cannot be encoded as declared' end in an exception)")
+                paths.append((q, v, e))
+            # translation validation of the cast model on boundary values where no event fires
+            n_ok = n_bad = 0
+            bad = []
+            for val in _cast_boundary(vdt):
+                try:
+                    with warnings.catch_warnings(), np.errstate(all="ignore"):
+                        warnings.simplefilter("ignore")
+                        out = np.asarray(M.writer.convert(row["make"]([val]), se))
+                    nat = fractions.Fraction(float(out[0])) if out.dtype.kind == "f" else int(out[0])
+                except Exception:
+                    continue
+                sv = fractions.Fraction(float(np.array([val], dtype=vdt)[0])) if vdt.kind == "f" else int(val)
+                for q, v_, e in paths:
+                    subs = [(v_, z3.Q(sv.numerator, sv.denominator) if vdt.kind == "f" else z3.IntVal(sv))]
+                    if _subst_eval(events_ok(q), subs) is not True:
+                        continue
+                    pm = _subst_eval(e, subs)
+                    if pm is None:
+                        # float -> int goes through a constrained fresh integer: compare through the constraint instead
+                        st_, _, _ = solve([c for c in q.pc] + [v_ == subs[0][1], e != int(nat)] if not isinstance(nat, fractions.Fraction) else [z3.BoolVal(False)], 2000)
+                        good = st_ == PROVED
+                    else:
+                        good = fractions.Fraction(pm) == nat
+                    n_ok += 1 if good else 0
+                    if not good:
+                        n_bad += 1
+                        bad.append({"v": str(val), "model": str(pm), "native": str(nat)})
+            if n_ok + n_bad:
+                if ctx is not None:
+                    ctx.tv["inputs"] += n_ok + n_bad
+                    ctx.tv["mismatches"] += n_bad
+                if n_bad:
+                    res.add(f"units.model_agrees_with_native[writer.convert,{key}]", UNKNOWN, {"mismatches": bad[:4]}, 0.0, EXEC, "cast model vs native convert")
+    if ctx is not None:
+        ctx.vacuity["covers"] += n_pairs
+        ctx.note(f"convert vs an arbitrary numeric schema element: {len(rows)} frame dtypes x {len(ses)} schema elements = {n_pairs} pairs; "
+                 f"{len(silent)} pairs narrow / round / truncate some value without raising (frame dtype wider than the dataset column: outside "
+                 "C07's 'same dtypes' quantifier; posed for C09 as convert.cast_to_schema_type_raises_or_keeps_value)")
+    return n_pairs
+
+
+def _native_cast_case(M, name):
+    """-> failure text on the real code for the pair in `name`, or None"""
+    key = name[name.index("[") + 1:-1]
+    D, tname = key.split(" -> ")
+    row = next((r for r in _cast_rows(M) if r["name"] == D), None)
+    se = next((s for (T, cv), s in numeric_schema_elements(M).items()
+               if se_facts(M.pt, s)["type"] + ("/" + se_facts(M.pt, s)["converted"] if se_facts(M.pt, s)["converted"] else "") == tname), None)
+    if row is None or se is None:
+        return None
+    f = se_facts(M.pt, se)
+    pdt = np.dtype(PHYS_DT[f["type"]])
+    for val in _cast_boundary(row["vdt"]):
+        try:
+            with warnings.catch_warnings(), np.errstate(all="ignore"):
+                warnings.simplefilter("ignore")
+                ser = row["make"]([val])
+                out = np.asarray(M.writer.convert(ser, se))
+                raw = bytes(M.writer.encode_plain(ser, se))
+        except Exception:
+            continue
+        if out.dtype != pdt:
+            back = np.frombuffer(raw[:pdt.itemsize * (len(raw) // pdt.itemsize)], dtype=pdt)
+            return (f"{D} value {val!r} for a {annotation_name(f)} column: convert returns {out.dtype}, encode_plain writes {raw.hex()} "
+                    f"which a reader of {f['type']} decodes as {back.tolist()}")
+        if name.startswith("convert.cast_target"):
+            continue
+        sv = fractions.Fraction(float(np.array([val], dtype=row["vdt"])[0])) if row["vdt"].kind == "f" else fractions.Fraction(int(val))
+        x = z3.Q(*fractions.Fraction(float(out[0])).as_integer_ratio()) if pdt.kind == "f" else z3.IntVal(int(out[0]))
+        _, sm, valid = spec_meaning(f, x)
+        # what the column reads back as: the annotated type applied by converted_types.convert
+        back = np.asarray(M.ct.convert(np.frombuffer(raw, dtype=pdt).copy(), se))
+        bv = fractions.Fraction(float(back[0])) if back.dtype.kind == "f" else fractions.Fraction(int(back[0]))
+        if bv != sv and not (isinstance(val, float) and not np.isfinite(val)):
+            return f"{D} value {val!r} appended to a {annotation_name(f)} column is written as {out[0]!r} and reads back as {back[0]!r}, without any exception"
+    return None
